@@ -4,7 +4,8 @@
      0 server : [0; variant; max; pre; closes; sched; counts; outcomes]      macro steps, see smacro
      1 reg    : [1; which(0 tunnel,1 control); max; ops; refused; keys]      ops = [0;id;created] | [1;id]
      2 mapseq : [2; variant; max; ops; counts; outcomes]                      ops = [0] open | [1;k] close k-th arrival
-     3 quota  : [3; max; pre; n; sched; counts; outcomes]                     one macro step = one model step *)
+     3 quota  : [3; variant; max; pre; n; sched; counts; outcomes]            see quota_check
+     4 qfault : [4; policy; max; nrecs; trace; outcomes]                      see qfault_check *)
 From TX Require Import Base.Val Model.Limits.
 From Coq Require Import ZArith.
 
@@ -105,7 +106,10 @@ Definition mapseq_check (v : tval) : bool :=
   let '(ok, s) := m_replay (dec_variant (vnth 1 v)) (vnat (vnth 2 v)) ({| counter := 0; live := 0 |}, repeat MStart n) 0 ops (vl (vnth 4 v)) in
   ok && all2 (fun pc o => N.eqb (m_outcome pc) (vn o)) (snd s) (vl (vnth 5 v)).
 
-(* ---- storage-level quotas *)
+(* ---- storage-level quotas: macro schedules of callers parked by the gated store.
+   Pinned tree: one macro step = one model step (count, create).
+   Repaired tree: macro 1 = up to the SetNX of the admission marker, macro 2 = SetNX .. count (.. Delete when refused / failed /
+   busy), macro 3 = create .. Delete. *)
 Definition q_outcome (pc : qpc) : N := match pc with QCreated => 1 | QRefused => 2 | _ => 0 end%N.
 Fixpoint q_replay max (s : nat * list qpc) (sched : list nat) (counts : list tval) : bool * (nat * list qpc) :=
   match sched, counts with
@@ -115,10 +119,69 @@ Fixpoint q_replay max (s : nat * list qpc) (sched : list nat) (counts : list tva
       if N.eqb (N.of_nat (fst s')) (vn (vnth 0 c)) then q_replay max s' rest cs else (false, s')
   | _, _ => (false, s)
   end.
+
+Definition l_in_admission (lo : lloc) : bool :=
+  match l_pc lo with LStart | LHeld | LRefHeld | LFailHeld => true | _ => false end.
+Definition l_in_create (lo : lloc) : bool := match l_pc lo with LCounted | LDoneHeld => true | _ => false end.
+Definition lmacro max (s : lsh * list lloc) (i : nat) : lsh * list lloc :=
+  match thread_at s i with
+  | Some lo =>
+      match l_pc lo with
+      | LNew => sys_step _ _ (lstep max) s i
+      | LStart => step_while (lstep max) l_in_admission 5 s i
+      | LCounted => step_while (lstep max) l_in_create 3 s i
+      | _ => s
+      end
+  | None => s
+  end.
+Definition l_outcome (lo : lloc) : N :=
+  match l_pc lo with LCreated => 1 | LRefused => 2 | LFailed => 4 | LBusy => 5 | _ => 0 end%N.
+Fixpoint l_replay max (s : lsh * list lloc) (sched : list nat) (counts : list tval) : bool * (lsh * list lloc) :=
+  match sched, counts with
+  | [], [] => (true, s)
+  | i :: rest, c :: cs =>
+      let s' := lmacro max s i in
+      if N.eqb (N.of_nat (q_n (fst s'))) (vn (vnth 0 c)) then l_replay max s' rest cs else (false, s')
+  | _, _ => (false, s)
+  end.
+
+(* [3; variant; max; pre; n; sched; counts; outcomes] *)
 Definition quota_check (v : tval) : bool :=
-  let '(ok, s) := q_replay (vnat (vnth 1 v)) (vnat (vnth 2 v), repeat QStart (vnat (vnth 3 v)))
-                           (map vnat (vl (vnth 4 v))) (vl (vnth 5 v)) in
-  ok && all2 (fun pc o => N.eqb (q_outcome pc) (vn o)) (snd s) (vl (vnth 6 v)).
+  let max := vnat (vnth 2 v) in
+  let pre := vnat (vnth 3 v) in
+  let n := vnat (vnth 4 v) in
+  let sched := map vnat (vl (vnth 5 v)) in
+  match dec_variant (vnth 1 v) with
+  | Pinned =>
+      let '(ok, s) := q_replay max (pre, repeat QStart n) sched (vl (vnth 6 v)) in
+      ok && all2 (fun pc o => N.eqb (q_outcome pc) (vn o)) (snd s) (vl (vnth 7 v))
+  | Current =>
+      let '(ok, s) := l_replay max ({| q_n := pre; q_lock := false |}, repeat (l_new false) n) sched (vl (vnth 6 v)) in
+      ok && negb (q_lock (fst s)) && all2 (fun lo o => N.eqb (l_outcome lo) (vn o)) (snd s) (vl (vnth 7 v))
+  end.
+
+(* ---- single read faults at a full quota: [4; policy; max; nrecs; trace; outcomes]
+   trace = class of every storage read of the request in order (0 index read, 1 by-id read of one of the client's records,
+   2 any other read); outcomes[k] = what the request did when exactly read k failed (0 refused by the quota, 1 failed,
+   2 ADMITTED) *)
+Definition dec_policy (v : tval) : fpolicy := match vn v with 0 => Abort | 1 => SkipRecord | _ => Open end%N.
+Definition a_code (r : ares) : N := match r with ARefused => 0 | AFailed => 1 | ACreated => 2 end%N.
+Definition class1_before (tr : list N) (k : nat) : nat := length (filter (N.eqb 1) (firstn k tr)).
+Definition fault_outcome (p : fpolicy) (max nrecs : nat) (tr : list N) (k : nat) : N :=
+  let recs := repeat true nrecs in
+  match nth k tr 9%N with
+  | 0 => a_code (fst (admit_once p max recs true []))
+  | 1 => a_code (fst (admit_once p max recs false (repeat false (class1_before tr k) ++ [true])))
+  | _ => 1
+  end%N.
+Definition qfault_check (v : tval) : bool :=
+  let p := dec_policy (vnth 1 v) in
+  let tr := map vn (vl (vnth 4 v)) in
+  all2 (fun k o => N.eqb (fault_outcome p (vnat (vnth 2 v)) (vnat (vnth 3 v)) tr k) (vn o))
+       (seq 0 (length tr)) (vl (vnth 5 v))
+  (* the request reads the index once and every record once *)
+  && Nat.eqb (length (filter (N.eqb 1) tr)) (vnat (vnth 3 v))
+  && Nat.eqb (length (filter (N.eqb 0) tr)) 1.
 
 Definition check (v : tval) : bool :=
   match vn (vnth 0 v) with
@@ -126,6 +189,7 @@ Definition check (v : tval) : bool :=
   | 1 => reg_check v
   | 2 => mapseq_check v
   | 3 => quota_check v
+  | 4 => qfault_check v
   | _ => false
   end%N.
 
@@ -134,8 +198,5 @@ Definition predict (v : tval) : tval :=
   match vn (vnth 0 v) with
   | 0 => let '(ok, s) := server_run v in
          VL [vN_of_bool ok; VN (N.of_nat (conns (fst s))); VN (N.of_nat (streams (fst s))); VL (map (fun lo => VN (s_outcome lo)) (snd s))]
-  | 3 => let '(ok, s) := q_replay (vnat (vnth 1 v)) (vnat (vnth 2 v), repeat QStart (vnat (vnth 3 v)))
-                                  (map vnat (vl (vnth 4 v))) (vl (vnth 5 v)) in
-         VL [vN_of_bool ok; VN (N.of_nat (fst s)); VL (map (fun pc => VN (q_outcome pc)) (snd s))]
   | _ => VL [vN_of_bool (check v)]
   end%N.
